@@ -366,3 +366,28 @@ def psbt_map_fields(ex, cls, field):
             "reserialize_identity": back.serialize(psbt_version=ver, check_validity=False) == raw,
             "from_dict_of_to_dict_is_equal": again == obj,
             "dict_form_serializes_the_same": again.serialize(psbt_version=ver, check_validity=False) == raw}
+
+
+# ------------------------------------------------------------------ whole PSBT: serialize / parse fixed point
+from btclib.psbt.psbt import Psbt
+
+
+@ob("C05", "whole_psbt_reserialization_is_a_fixed_point", quick=[dict(scenario=s, version=v) for s in ("disjoint_sigs", "shared_and_new", "updater_fields", "optional_ints") for v in (0, 2)],
+    bound="a one-input one-output PSBT (version 0 and 2) populated as in C11's scenarios (partial signatures, unknown pairs at the three levels, utxos, derivations, taproot derivations, scripts, "
+          "sighash type) with value bytes symbolic: parse(serialize(p)) == p, serialize(parse(serialize(p))) is the same bytes, and the dict form round-trips",
+    functions=["btclib.psbt.psbt.Psbt.serialize", "btclib.psbt.psbt.Psbt.parse", "btclib.psbt.psbt.Psbt.from_dict"], outside=["PSBTs with several inputs; key order other than the serializer's own"], min_ok=1, timeout=600)
+def whole_psbt(ex, scenario, version):
+    from harness.c11_combine import _operand
+    # the operand that holds the scenario's maps (for optional_ints the one with the integer: symbolic script bytes are psbt_map_fields_roundtrip's)
+    p = _operand(ex, scenario, 0 if scenario == "optional_ints" else 1, version)
+    raw = p.serialize(check_validity=False)
+    try:
+        back = Psbt.parse(raw, check_validity=False)
+    except LIB_ERRORS as e:
+        return {"own_serialization_parses": False}
+    raw2 = back.serialize(check_validity=False)
+    claims = {"parse_of_serialize_is_equal": back == p, "reserialize_identity": sand(len(raw2) == len(raw), raw2 == raw) if len(raw2) == len(raw) else False}
+    if scenario != "updater_fields":       # the dict form of a TxOut goes through decimal.Decimal
+        again = Psbt.from_dict(p.to_dict(check_validity=False), check_validity=False)
+        claims["from_dict_of_to_dict_is_equal"] = again == p
+    return claims
